@@ -15,12 +15,13 @@ theorem characterize_group (p : PDesc) (isLast st : Bool) (c : CP) (h : characte
   | some e => rw [hc] at h; simp at h; exact ⟨e, rfl, by rw [← h]⟩
 
 /-- `ns` = the types tainted so far (invoke arguments and outputs of RUN providers listed earlier).
-    Every provider that ends up in the static/literal list and is in the STATIC group has no tainted input.
+    Every provider that ends up in the static/literal list and is in the STATIC group has no tainted input
+    (other than Unused, which is always available in the static set).
     (The recursion passes the grown taint set to the rest of the list, so the statement covers every
     suffix with the taint accumulated up to it.) -/
 theorem C06_taint_sound : ∀ (provs : List PDesc) (ns : List Ty) (bi ai : List CP),
     characterizeAll provs ns = some (bi, ai) →
-    ∀ c ∈ bi, c.group = .staticGroup → ∀ t ∈ c.inp, ns.contains t = false
+    ∀ c ∈ bi, c.group = .staticGroup → ∀ t ∈ c.inp, t ≠ tUnused → ns.contains t = false
   | [], ns, bi, ai, h => by
     simp [characterizeAll] at h; intro c hc; rw [h.1] at hc; cases hc
   | p :: rest, ns, bi, ai, h => by
@@ -44,8 +45,8 @@ theorem C06_taint_sound : ∀ (provs : List PDesc) (ns : List Ty) (bi ai : List 
               simpa using ht.2
             · exact ht
           -- the head provider
-          have hhead : c.group = .staticGroup → ∀ t ∈ c.inp, ns.contains t = false := by
-            intro hg t ht
+          have hhead : c.group = .staticGroup → ∀ t ∈ c.inp, t ≠ tUnused → ns.contains t = false := by
+            intro hg t ht hnu
             split at hcsel
             · -- re-characterised with inputsAreStatic = false: cannot be static
               rename_i hcond
@@ -57,15 +58,15 @@ theorem C06_taint_sound : ∀ (provs : List PDesc) (ns : List Ty) (bi ai : List 
               simp only [Bool.and_eq_true, beq_iff_eq, List.any_eq_true, not_and, not_exists] at hcond
               cases hb : ns.contains t with
               | false => rfl
-              | true => exact absurd hb (hcond hg t ht)
+              | true => exact absurd hb (hcond hg t ht (by simpa using hnu))
           split at h
           · cases h
-            intro c' hc' hg t ht
+            intro c' hc' hg t ht hnu
             cases List.mem_cons.mp hc' with
-            | inl heq => subst heq; exact hhead hg t ht
-            | inr hin => exact hsub t (ih c' hin hg t ht)
+            | inl heq => subst heq; exact hhead hg t ht hnu
+            | inr hin => exact hsub t (ih c' hin hg t ht hnu)
           · cases h
-            intro c' hc' hg t ht
-            exact hsub t (ih c' hc' hg t ht)
+            intro c' hc' hg t ht hnu
+            exact hsub t (ih c' hc' hg t ht hnu)
 
 end Nject
